@@ -26,6 +26,7 @@ type msgSpec struct {
 	MFile int         `json:"multipart_files,omitempty"`
 	Prog  prog        `json:"program"`
 	// Limit is the X-Limit value the message carries (0: none); OverLimit: its body exceeds its own limit
+	Truncated bool `json:"truncated,omitempty"` // the peer stopped sending in the middle of this message
 	Limit     int  `json:"x_limit,omitempty"`
 	OverLimit bool `json:"over_limit,omitempty"`
 
@@ -144,6 +145,10 @@ func commonFields(r *rand.Rand, h *headBuilder, host string) {
 		h.line(e[0], e[1])
 	}
 	if r.Intn(3) == 0 {
+		// a field name in lower case: the handler must see it normalised
+		h.line("x-lower-case", "lc")
+	}
+	if r.Intn(3) == 0 {
 		ck := pairs(r, 3, false)
 		if len(ck) > 0 {
 			var l []string
@@ -160,7 +165,7 @@ var kinds = []struct {
 	w    int
 }{
 	{"get", 14}, {"head", 5}, {"get10ka", 5}, {"form", 8}, {"multipart", 7}, {"chunked", 8}, {"big", 4}, {"bigchunked", 3},
-	{"expect-ok", 7}, {"expect-rej", 8}, {"invalid", 6}, {"close11", 2}, {"get10", 2},
+	{"expect-ok", 7}, {"expect-rej", 8}, {"invalid", 6}, {"close11", 2}, {"get10", 2}, {"huge", 1},
 }
 
 func pickKind(r *rand.Rand, nonClosing bool) string {
@@ -183,7 +188,7 @@ func pickKind(r *rand.Rand, nonClosing bool) string {
 }
 
 func genProg(r *rand.Rand, kind string, nonClosing bool) prog {
-	p := prog{ReadMode: r.Intn(3), RespMode: r.Intn(7), Status: []int{200, 201, 202, 203, 404, 500, 204}[r.Intn(7)], MutMask: r.Uint32()}
+	p := prog{ReadMode: []int{0, 0, 0, 1, 1, 1, 2, 2, 2, 3, 4}[r.Intn(11)], RespMode: r.Intn(7), Status: []int{200, 201, 202, 203, 404, 500, 204}[r.Intn(7)], MutMask: r.Uint32()}
 	if r.Intn(8) == 0 {
 		p.MutMask = 0xffffffff
 	}
@@ -198,6 +203,9 @@ func genProg(r *rand.Rand, kind string, nonClosing bool) prog {
 		}
 	} else if r.Intn(10) == 0 {
 		p.Special = "timeout" // a timed-out handler does not end the connection
+	}
+	if nonClosing && p.ReadMode >= 3 {
+		p.ReadMode -= 3 // (an unread streamed body ends the connection)
 	}
 	if kind == "head" {
 		// known, separately tracked response-framing defects (C03/C16) are kept out of this check
@@ -312,8 +320,12 @@ func genMsg(r *rand.Rand, tag string, conf srvConf, nonClosing bool) *msgSpec {
 		}
 		b.WriteString("\r\n")
 		body = b.Bytes()
-	case "big":
-		body = bodyBytes(r, 8500+r.Intn(12000))
+	case "big", "huge":
+		if kind == "huge" {
+			body = bytes.Repeat(bodyBytes(r, 1000), 100) // 100 kB
+		} else {
+			body = bodyBytes(r, 8500+r.Intn(12000))
+		}
 		fmt.Fprintf(&h.b, "POST %s HTTP/1.1\r\n", target)
 		commonFields(r, &h, host)
 		h.line("Content-Type", "application/octet-stream")
@@ -374,7 +386,7 @@ func genMsg(r *rand.Rand, tag string, conf srvConf, nonClosing bool) *msgSpec {
 		// carried must not matter.
 		limit := conf.defaultLimit()
 		switch kind {
-		case "form", "multipart", "big", "expect-ok", "expect-rej":
+		case "form", "multipart", "big", "huge", "expect-ok", "expect-rej":
 			if !nonClosing && r.Intn(2) == 0 {
 				switch r.Intn(4) {
 				case 0:
@@ -466,7 +478,18 @@ func genHistory(r *rand.Rand) *history {
 				cs.Frag = "1000"
 			}
 		}
-		if last || r.Intn(3) == 0 {
+		if !last && len(cs.Msgs) > 0 && r.Intn(8) == 0 {
+			// the peer aborts in the middle of the last message of this connection
+			m := cs.Msgs[len(cs.Msgs)-1]
+			if len(m.Raw) > 2 {
+				m.Raw = m.Raw[:1+r.Intn(len(m.Raw)-1)]
+				m.RawText = string(m.Raw)
+				if len(m.RawText) > 1500 {
+					m.RawText = m.RawText[:1500] + "…"
+				}
+				m.Truncated, m.Valid, m.OverLimit, m.Kind, m.ref = true, false, false, "invalid:truncated", nil
+			}
+		} else if last || r.Intn(3) == 0 {
 			cs.Msgs = append(cs.Msgs, cleanGET(fmt.Sprintf("/t%dx%dclean", c, len(cs.Msgs))))
 		}
 		h.Conns = append(h.Conns, cs)
